@@ -179,6 +179,32 @@ def run(chk):
         return True, "", [c.loc for c in pfv]
     chk.ob("C14.R2:metrics-encoder", "the metrics signal takes an event only if it is metric-kinded, has a value and points can be extracted from it", metrics)
 
+    def metrics_decline_reasons():
+        b = P.impl_method("emit_otlp::data::EventEncoder", "emit_otlp::data::metrics::MetricsEventEncoder", "encode_event")
+        seen = 0
+        for rb in b.return_blocks():
+            for path in b.acyclic_paths(0, rb, limit=20000):
+                ps = mir.PathSummary(b, path)
+                r = ps.ret()
+                if not (r[0] == "agg" and r[1].get("variant") == "None"):
+                    continue
+                seen += 1
+                for sbb, o, vals in ps.decisions():
+                    x = o
+                    while x[0] in ("discr", "field", "downcast", "index"):
+                        x = x[1]
+                    if x[0] == "call" and x[1].callee.get("name") == "get" and len(x[1].args) > 1:
+                        key = mir.o_const_value(ps.origin(x[1].args[1], at=ps.pos[sbb]))
+                        absent = tuple(vals) in (("0",), (0,)) or (vals and vals[0] == "otherwise" and "1" in [str(v) for v in vals[1]])
+                        if absent and key != "metric_value":
+                            return False, ("the metrics encoder declines an event because the property `%s` is absent (decision at %s:%s): a "
+                                           "metric-kinded event with a numeric value but no `%s` must still go through the metrics signal "
+                                           "(as a gauge), not fall through to logs" % (key, b.file, b.blocks[sbb]["term"].get("line"), key)), [], "%s:%s" % (b.file, b.blocks[sbb]["term"].get("line"))
+        if not seen:
+            raise mir.AnchorMissing("declining paths of MetricsEventEncoder::encode_event")
+        return True, "", ["%d declining paths" % seen]
+    chk.ob("C14.R2:metrics-decline-reasons", "the metrics encoder declines only for a non-metric kind or a missing/unusable metric_value, never for another absent property", metrics_decline_reasons)
+
     def pfv_default():
         b = P.body("emit_otlp::data::metrics::DataPointBuilder::points_from_value")
         st = [c for c in b.calls(normal_only=True) if c.callee.get("name") == "stream" and "Value" in (c.callee.get("full") or c.callee.get("trait") or "")]
